@@ -210,6 +210,42 @@ func (f *Flow) Cond(b *cfg.Block) (cond ast.Expr, isCase bool) {
 	return f.normCond(e, 0), false
 }
 
+// condRaw: the branch condition as written (named booleans not expanded); nil for case edges.
+func (f *Flow) condRaw(b *cfg.Block) ast.Expr {
+	if len(b.Succs) != 2 || len(b.Nodes) == 0 {
+		return nil
+	}
+	e, ok := b.Nodes[len(b.Nodes)-1].(ast.Expr)
+	if !ok {
+		return nil
+	}
+	if cc, ok := b.Succs[0].Stmt.(*ast.CaseClause); ok && (b.Succs[0].Kind == cfg.KindSwitchCaseBody || b.Succs[1].Kind == cfg.KindSwitchNextCase) {
+		if s := f.switchOf(cc); s == nil || s.Tag != nil {
+			return nil
+		}
+	}
+	return e
+}
+
+// edgeAtoms: the atomic facts of an edge, from the expanded condition and – so that repeated tests of a named
+// boolean still correlate where only some of them could be expanded – from the condition as written.
+func (f *Flow) edgeAtoms(b *cfg.Block, cond ast.Expr, i int) []atomFact {
+	out := atomsOnEdge(cond, i)
+	if raw := f.condRaw(b); raw != nil && raw != cond {
+		seen := map[string]bool{}
+		for _, a := range out {
+			k, _ := canonAtom(a)
+			seen[k] = true
+		}
+		for _, a := range atomsOnEdge(raw, i) {
+			if k, _ := canonAtom(a); !seen[k] {
+				out = append(out, a)
+			}
+		}
+	}
+	return out
+}
+
 // normCond replaces a named boolean (`inTransaction := s.delivery != nil; if inTransaction {`) by its defining
 // condition, recursively through !, && and ||. A name is expanded only if it is defined exactly once, the
 // definition precedes the use, no local it mentions is reassigned in between, and – when it reads a field – no
@@ -258,32 +294,6 @@ func (f *Flow) normCond(e ast.Expr, depth int) ast.Expr {
 			}
 		default:
 			return e // results of calls, copies of other variables: values the rules track by variable
-		}
-		// the decision is per variable: every use of it must be stable, otherwise repeated tests of the name would
-		// be expanded at one place and kept at another (and no longer correlate)
-		if depth == 0 || true {
-			if f.nbStable == nil {
-				f.nbStable = map[*types.Var]int{}
-			}
-			switch f.nbStable[o] {
-			case 2:
-				return e
-			case 0:
-				f.nbStable[o] = 1 // provisional, prevents recursion
-				all := true
-				ast.Inspect(f.Body, func(n ast.Node) bool {
-					if id, ok := n.(*ast.Ident); ok && id != x && f.Info.Uses[id] == o && id.Pos() > def.End() {
-						if f.normCond(id, depth+1) == ast.Expr(id) {
-							all = false
-						}
-					}
-					return true
-				})
-				if !all {
-					f.nbStable[o] = 2
-					return e
-				}
-			}
 		}
 		stable := true
 		readsField := false
@@ -427,7 +437,7 @@ func (f *Flow) Reach(q Query) ([]Pt, bool) {
 			if cond != nil && !isCase && len(corr) > 0 {
 				contradiction := false
 				var add []atomFact
-				for _, af := range atomsOnEdge(cond, i) {
+				for _, af := range f.edgeAtoms(pt.B, cond, i) {
 					t, truth := canonAtom(af)
 					if _, tracked := corr[t]; !tracked {
 						continue
@@ -516,7 +526,7 @@ func (f *Flow) corrAtoms() map[string][]types.Object {
 		}
 		seenHere := map[string]bool{}
 		for si := 0; si < 2; si++ {
-			for _, af := range atomsOnEdge(cond, si) {
+			for _, af := range f.edgeAtoms(b, cond, si) {
 				t, _ := canonAtom(af)
 				if seenHere[t] {
 					continue
@@ -1383,7 +1393,7 @@ func (f *Flow) seedFacts(pt Pt, corr map[string][]types.Object) map[string]bool 
 		sg := chain[i]
 		if sg.pred != nil && sg.viaIdx >= 0 {
 			if cond, isCase := f.Cond(sg.pred); cond != nil && !isCase {
-				for _, af := range atomsOnEdge(cond, sg.viaIdx) {
+				for _, af := range f.edgeAtoms(sg.pred, cond, sg.viaIdx) {
 					t, truth := canonAtom(af)
 					if _, tracked := corr[t]; tracked {
 						facts[t] = truth
